@@ -398,6 +398,9 @@ func (s *Server) CloseConns() int {
 
 // ---- protocol ----
 
+// Deadline is memcached's reading of an exptime field received at time now.
+func Deadline(exp uint32, now int64) int64 { return deadline(exp, now) }
+
 func deadline(exp uint32, now int64) int64 {
 	if exp == 0 {
 		return 0
